@@ -9,7 +9,7 @@ Full == {97, 32, 50, 56, 57} \cup Breaks          \* 'a', space, '2', '8', '9' a
 Small == {97, 32, 50, 56, 10, 13, 8232}
 Bytes == {97, 195, 169, 10, 13}                    \* 'a', the two bytes of U+00E9, \n, \r
 (* contents are built from units so that the UTF-8 pair stays together *)
-Units == {<<97>>, <<195, 169>>, <<10>>, <<13, 10>>, <<98>>}
+Units == {<<97>>, <<195, 169>>, <<10>>, <<13, 10>>, <<98>>, <<239, 187, 191>>, <<240, 159, 152, 128>>}   \* incl. U+FEFF (3 bytes) and a 4-byte character
 RECURSIVE Cat(_)
 Cat(ss) == IF ss = <<>> THEN <<>> ELSE Head(ss) \o Cat(Tail(ss))
 Contents == {Cat(u) : u \in SeqsOver(Units, ContentLen)}
